@@ -95,7 +95,8 @@ def _obs(o):
                o_calls=L([T(S(a), S(b), S(c), S(d)) for a, b, c, d in o["calls"] or []]),
                o_stats=L([T(S(a), S(b)) for a, b in o["stats"] or []]),
                o_tagok=B(o["tag_ok"]),
-               o_result=Opt(S(o["result"]) if o["has_result"] else None))
+               o_result=Opt(S(o["result"]) if o["has_result"] else None),
+               o_life=L([S(x) for x in o.get("life") or []]))
 
 
 def encode(c):
@@ -105,7 +106,11 @@ def encode(c):
                    c_before=Opt(_spec(i["before"]) if i.get("before") else None),
                    c_after=Opt(_spec(i["after"]) if i.get("after") else None),
                    c_mode=N(_MODE[i["mode"]]), c_raw=B(i["raw"]),
-                   c_script=L([S(x) for x in i["script"] or []]), c_obs=_obs(o))
+                   c_script=L([S(x) for x in i["script"] or []]),
+                   c_gfprev=B(bool(i.get("gfprev"))),
+                   c_prevb=Opt(_spec(i["prev_before"]) if i.get("prev_before") else None),
+                   c_preva=Opt(_spec(i["prev_after"]) if i.get("prev_after") else None),
+                   c_obs=_obs(o))
     if c["grp"] == "enum":
         return Rec(e_kinds=_kinds(i["kinds"]), e_spec=_spec(i["spec"]), e_results=L([S(x) for x in i["results"]]),
                    e_len=Nat(i["len"]), e_valid=B(o["valid"]), e_newspec=B(o["newspec"]),
@@ -151,6 +156,12 @@ def shrink_candidates(inp, grp):
     if grp != "run":
         return
     import copy
+    if inp.get("gfprev"):
+        for side in ("prev_before", "prev_after"):
+            if inp.get(side):
+                c = copy.deepcopy(inp)
+                c[side] = None
+                yield c
     if inp.get("gen"):
         c = copy.deepcopy(inp)
         c["gen"] = 0
